@@ -146,8 +146,13 @@ EvRecvRet ==
                     /\ owed' = [owed EXCEPT ![s] = @ \cup {b \in cur[s]..(Ev.from - 1) : b \notin disab[s]}]
                  \/ /\ ~MultiRun /\ OwedOk(s, Ev.from, Ev.to) /\ owed' = [owed EXCEPT ![s] = @ \ (Ev.from..(Ev.to - 1))] /\ UNCHANGED cur
          [] Ev.res = "PeerClosed" ->       \* only after every byte that arrived before the close was returned
-              /\ closedAt[s] >= 0 /\ AllHanded(s, closedAt[s]) /\ ~ovfSeen[s]
-              /\ UNCHANGED <<cur, ovfSeen, owed>>
+              /\ closedAt[s] >= 0 /\ ~ovfSeen[s] /\ UNCHANGED ovfSeen
+              /\ \/ AllHanded(s, closedAt[s]) /\ UNCHANGED <<cur, owed>>
+                 \* ... or has been TAKEN by another receive on the session that is still in flight (its return line comes
+                 \* later): those bytes are owed
+                 \/ /\ ~AllHanded(s, closedAt[s]) /\ \E r \in pendRecv \ {MyRecv} : r[2] = s
+                    /\ owed' = [owed EXCEPT ![s] = @ \cup {b \in cur[s]..(closedAt[s] - 1) : b \notin disab[s]}]
+                    /\ cur' = [cur EXCEPT ![s] = closedAt[s]]
          [] Ev.res = "BufferOverflow" ->   \* distinct, and only when the cap could have been exceeded
               /\ maxBacklog[s] > cap
               /\ ovfSeen' = [ovfSeen EXCEPT ![s] = TRUE] /\ UNCHANGED <<cur, owed>>
@@ -203,7 +208,9 @@ EvConnRet ==
        THEN /\ Ev.s = c.sid /\ Ev.s \in engConn /\ Ev.s \notin onBehalf
             /\ handed' = handed \cup {Ev.s}
        ELSE /\ c.sid \notin willOk                           \* a session the application already saw closing belongs to it
-            /\ CASE Ev.err = "Timeout" -> Ev.vt - c.vt >= c.to /\ (c.sid = -1 \/ c.sid \in onBehalf) /\ TimeoutOk(c.vt, c.to)
+            \* (times are whole milliseconds, cut off at the call and at the return, and the cancellable variant cuts its remaining
+            \* time to whole milliseconds itself: one millisecond of tolerance)
+            /\ CASE Ev.err = "Timeout" -> Ev.vt - c.vt >= c.to - 1 /\ (c.sid = -1 \/ c.sid \in onBehalf) /\ TimeoutOk(c.vt, c.to)
                  [] Ev.err = "Cancelled" -> cancelled /\ (c.sid = -1 \/ c.sid \in onBehalf)   \* leaves no open connection behind
                  [] Ev.err = "ShuttingDown" -> lifeCalled
                  [] OTHER -> TRUE
